@@ -140,6 +140,21 @@ def check(run: Run) -> None:
     ok = any("enumerate" in ast.unparse(c) and ".value == " in ast.unparse(c) for c in comps)
     run.check(ok, "C08.R1", fi, fi.node, "dict key is matched by value equality with the attribute name", "dict-literal attribute does not select the key equal to the attribute name")
 
+    # the type of a processed call is recorded for the node handed back *and* for the node it replaces
+    for name in ("process_method_call", "process_function_call", "process_parameterized_method_call"):
+        fi = need(name)
+        fa, st = stores(fi)
+        nodep = ("param", fi.pos_params[1])
+        ret_terms = set()
+        for s_, n_ in fa.returns():
+            ret_terms.add(strip_sites(fa.term_of(s_.value, n_)))
+        keys = {k for _n, k, _v in st}
+        for rtm in ret_terms:
+            alts = unphi_terms(rtm)
+            covered = all(any(a == k or a in unphi_terms(k) for k in keys) for a in alts)
+            run.check(covered, "C08.R1", fi, fi.node, f"{name} records a type for the node it returns", f"{name} returns {show(rtm)[:80]} but records the type under {[show(k)[:40] for k in keys]}: the returned (possibly rewritten) call has no recorded type, so a method chained on it is followed as Any - no defaults, no callbacks, wrong item type", "self._found_types[r_node] = <type>")
+        run.check(nodep in keys, "C08.R1", fi, fi.node, f"{name} records a type for the node it was given", f"{name} does not record a type for the original node")
+
     # ---------------- R2
     os_cls = m.find_class("ObjectStream", in_module="func_adl.object_stream")
     for op in ("Select", "SelectMany", "Where"):
